@@ -41,14 +41,25 @@ QUERIES = ['y', 'k=v', 'k=v&z', 'k=1&k=2', 'a/b?c=d', 'q=@:x', 'x&y&x']
 FRAGS = ['s', 'sec-2', 'a/b?c', 'x:y', 'f=1&g']
 
 
-def translators(repo):
+def _load_translator(name):
     import importlib.util
     import os
-    p = os.path.join(os.path.dirname(os.path.abspath(__file__)), "translators", "c07_tables.py")
-    spec = importlib.util.spec_from_file_location("c07_tables", p)
+    import sys
+    d = os.path.join(os.path.dirname(os.path.abspath(__file__)), "translators")
+    if d not in sys.path:
+        sys.path.insert(0, d)                 # c07_src imports the shared py2coq
+    spec = importlib.util.spec_from_file_location(name, os.path.join(d, name + ".py"))
     m = importlib.util.module_from_spec(spec)
     spec.loader.exec_module(m)
-    return {"C07_Gen": m.tables(repo)}
+    return m
+
+
+def translators(repo):
+    """Gen/C07_Gen.v: tables + regular expression; Gen/C07_Src.v: resolve_path_parts as Gallina
+    (both from the current source, fail closed)."""
+    out = {"C07_Gen": _load_translator("c07_tables").tables(repo)}
+    out.update(_load_translator("c07_src").generate(repo))
+    return out
 
 
 # --------------------------------------------------------------------------
